@@ -19,36 +19,49 @@ def corpus_scenario(seed, index, tier):
     """A single-caller scenario from one of the other families' generators."""
     from . import c02, c03, c05, c09, c10, c11, c15, c16, c17, c20
 
-    k = index % 10
+    k = index % 11
     r = gen.mk_rng(seed, "c18")
+    if k == 10:
+        # one caller, sequential requests on one HTTP/2 connection while the server
+        # sends GOAWAY (last-stream-id equal / below / above) or RST_STREAM
+        from .common import gen_poolmix
+
+        s = gen_poolmix(seed, "quick", {"exec": "asyncio", "protos": ["h2"], "min_callers": 1,
+                                        "max_callers": 1, "p_h2_events": 1.0, "proxies": ["none"],
+                                        "single_origin": True, "scheds": ["fifo"],
+                                        "p_pool_timeout": 0.0})
+        s.pop("tick", None)
+        return "h2ev", s
     if k == 0:
-        return "c02", c02.base(seed, index // 10, tier)
+        return "c02", c02.base(seed, index // 11, tier)
     if k == 1:
         fam = c03.SerialiseFamily("x", "asyncio", 0, 0)
-        return "c03", fam.generate(seed, (index // 10) * 5, tier)   # mode "plain"
+        m = index // 11
+        # single-caller modes of the C03 generator: "plain" (0) and "forward" (5)
+        return "c03", fam.generate(seed, m * 6 + (5 if m % 4 == 3 else 0), tier)
     if k == 2:
         fam = c09.KeepAliveFamily("x", "asyncio", 0, 0)
-        return "c09", fam.generate(seed, index // 10, tier)
+        return "c09", fam.generate(seed, index // 11, tier)
     if k == 3:
         fam = c10.OriginFamily("x", "threads", 0, 0)   # single caller variant
-        s = fam.generate(seed, index // 10, tier)
+        s = fam.generate(seed, index // 11, tier)
         s["exec"] = "asyncio"
         s.pop("policy", None)
         return "c10", s
     if k == 4:
         fam = c11.ProxyFamily("x", "asyncio", 0, 0)
-        return "c11", fam.generate(seed, index // 10, tier)
+        return "c11", fam.generate(seed, index // 11, tier)
     if k == 5:
         fam = c17.UpgradeFamily("C17", "x", 0, 0)
-        return "c17", fam.generate(seed, index // 10, tier)
+        return "c17", fam.generate(seed, index // 11, tier)
     if k == 6:
         fam = c20.RetryFamily("C20", "x", 0, 0)
-        return "c20", fam.generate(seed, index // 10, "quick")
+        return "c20", fam.generate(seed, index // 11, "quick")
     if k == 7:
         fam = c15.ScratchFamily("C15", "x", 0, 0)
-        return "c15", fam.generate(seed, index // 10, tier)
+        return "c15", fam.generate(seed, index // 11, tier)
     # single-caller I/O-fault runs on the C05 bases (company "alone")
-    b = c05.base_scenario(seed, (index // 10) % 11, "asyncio")
+    b = c05.base_scenario(seed, (index // 11) % 11, "asyncio")
     b["epilogue"] = ["observe", "close_pool"]
     if k == 8:
         b["net"]["fault_once"] = r.choice(["read_error", "write_error", "eof", "connect_error",
@@ -56,7 +69,7 @@ def corpus_scenario(seed, index, tier):
                                            "connect_timeout", "tls_timeout"])
         return "c05", b
     fam = c16.ArgsFamily("x", "asyncio", 0, 0)
-    s = fam.generate(seed, (index // 10) % 11, tier)
+    s = fam.generate(seed, (index // 11) % 11, tier)
     s["epilogue"] = ["observe", "close_pool"]
     return "c16", s
 
